@@ -78,6 +78,13 @@ on the shapes of the consumed lists) and NumPy block assignments read entry-wise
 case analysis, or by an induction that relates the generated loop to the model's recursion (proof scripts fixed in its
 TARGETS table; model-only helper lemmas in lean/PersimVerif/Lemmas/SrcBridge*.lean, the Python builtins it uses in
 lean/PersimVerif/Lemmas/SrcLib.lean).  Its conventions are stated in its module docstring and in every generated header.
+
+MATCHING ENGINE (py2lean_matching.py; keys bottleneck_search, wasserstein_assign of FILES; `pre_build` of C01, C02, C06).  What
+`persim.bottleneck` / `persim.wasserstein` do around the augmented matrix -- the preamble, the bisection with the Hopcroft-Karp
+oracle, `linear_sum_assignment` and the sum, the two `matching=True` extractions -- statement by statement, each loop its own
+recursion (the `while` on a fuel), the external solvers as parameters; proved equal to reviewed Lean text of the same shape and
+through it to the hand-written models (Lemmas/SrcBridgeMatching.lean, SrcLibMatching.lean).  It also blanks, in the
+`srcSkeleton(After)_aug_entry` pins of the statement-level targets `bottleneck` / `wasserstein`, what it translates.
 """
 import ast, os, re
 from fractions import Fraction
@@ -1244,6 +1251,8 @@ def trusted_note(key):
     """the entry a harness module adds to its TRUSTED list"""
     if key in SWEEP_KEYS:
         return py2lean_sweep.trusted_note(key)
+    if key in MATCHING_KEYS:                     # the matching engine (py2lean_matching.py)
+        return py2lean_matching.trusted_note(key)
     if key in STMT_KEYS:
         return ("harness/translator/py2lean.py + py2lean_stmt.py (statement-level ast translation of the anchored code of %s into "
                 "Generated/%s, proved equal to the hand-written model on every run; its TARGETS table -- binders, the attribute -> "
@@ -1273,6 +1282,8 @@ def manifest_note(key):
     fs = []
     if key in SWEEP_KEYS:
         return py2lean_sweep.manifest_note(key)
+    if key in MATCHING_KEYS:                     # the matching engine (py2lean_matching.py)
+        return py2lean_matching.manifest_note(key)
     if key in STMT_KEYS:
         for cfg in py2lean_stmt.TARGETS:
             if cfg["file"] == key:
@@ -1307,6 +1318,8 @@ def prop_file(key):
 
 def prop_files(key):
     """the generated file of `key` preceded by the hand-written library / bridging lemma files it imports (for PROP_FILES)"""
+    if key in MATCHING_KEYS:                     # the matching engine (py2lean_matching.py)
+        return list(py2lean_matching.BRIDGES[key]) + [prop_file(key)]
     return list(py2lean_stmt.BRIDGES.get(key, py2lean_sweep.BRIDGES.get(key, []))) + [prop_file(key)]
 
 
@@ -1629,7 +1642,8 @@ def all_target_functions(path):
     """qualified names of the functions of the Python file `path` that have a target in either engine"""
     return ([c["func"] for c in TARGETS if FILES[c["file"]][0] == path]
             + [c["func"] for c in py2lean_stmt.TARGETS if c.get("pyfile", FILES[c["file"]][0]) == path]
-            + [c["func"] for c in py2lean_sweep.TARGETS if FILES[c["file"]][0] == path])
+            + [c["func"] for c in py2lean_sweep.TARGETS if FILES[c["file"]][0] == path]
+            + [c["func"] for c in py2lean_matching.TARGETS if FILES[c["file"]][0] == path])
 
 
 def not_translated_comment(items):
@@ -1910,6 +1924,8 @@ def render_file(key, root):
         return py2lean_stmt.render_file(key, root)
     if key in SWEEP_KEYS:                        # the sweep engine (py2lean_sweep.py)
         return py2lean_sweep.render_file(key, root)
+    if key in MATCHING_KEYS:                     # the matching engine (py2lean_matching.py)
+        return py2lean_matching.render_file(key, root)
     py, out, ns, model, prop = FILES[key]
     o, info = [header(key)], {"source": py, "output": "/".join([GEN.replace(os.sep, "/"), out]), "functions": {}}
     src, fns, file_err, tree = "", {}, None, None
@@ -2031,7 +2047,7 @@ def expected_tables(root):
         text, _ = render_file(key, root)
         for m in re.finditer(r"def srcBindings_(\w+) : List \(String × String\) :=\n  \[(.*?)\]\ntheorem", text, re.S):
             b[m.group(1)] = re.findall(r'\("((?:[^"\\]|\\.)*)", "((?:[^"\\]|\\.)*)"\)', m.group(2))
-        for cfg in TARGETS + py2lean_stmt.TARGETS + py2lean_sweep.TARGETS:
+        for cfg in TARGETS + py2lean_stmt.TARGETS + py2lean_sweep.TARGETS + py2lean_matching.TARGETS:
             if cfg["file"] == key:
                 m = re.search(r"def srcSignature_%s : String :=\n  \"((?:[^\"\\]|\\.)*)\"\n" % sanitize(cfg["func"]), text)
                 if m:
@@ -2156,6 +2172,13 @@ from . import py2lean_sweep  # noqa: E402
 for _k, _v in py2lean_sweep.FILES.items():
     FILES[_k] = _v[:5]
     SWEEP_KEYS.add(_k)
+
+# the matching engine (what bottleneck / wasserstein do behind the augmented matrix) registers its files the same way
+MATCHING_KEYS = set()
+from . import py2lean_matching  # noqa: E402
+for _k, _v in getattr(py2lean_matching, "FILES", {}).items():   # (empty when that module is being imported first: it registers itself)
+    FILES[_k] = _v[:5]
+    MATCHING_KEYS.add(_k)
 
 
 if __name__ == "__main__":
